@@ -179,3 +179,122 @@ Definition segs_of (rs : rsQ) (it : item QProb) : list seg :=
   | Some b => segs rs (fst b) (map snd (ipt it))
   | None => []
   end.
+
+(* ---- a derivation is a guess of a pre-terminal *)
+
+Section Tie.
+Variable upper_c : N -> Str.str.
+
+Lemma mask_total_apply : forall m w, mask_total upper_c m w = apply_mask upper_c m w.
+Proof.
+  induction m as [|x m IH]; intros w; [reflexivity|]. destruct w as [|c w]; [reflexivity|].
+  unfold mask_total in *. simpl. now rewrite IH.
+Qed.
+
+Lemma product_In : forall (texts : list Str.str) (cs : list (list Str.str)),
+  Forall2 (fun t c => In t c) texts cs -> In (concat texts) (Expand.product cs).
+Proof.
+  induction 1 as [|t c ts cs Ht _ IH]; [now left|]. simpl. apply in_flat_map. exists t. split; [assumption|].
+  apply in_map. exact IH.
+Qed.
+
+Lemma map_snd_combine {X Y} : forall (a : list X) (b : list Y), length a = length b -> map snd (combine a b) = b.
+Proof. induction a as [|x a IH]; intros [|y b] H; simpl in *; try discriminate; [reflexivity|]. f_equal. apply IH. lia. Qed.
+
+Notation gv := guesser_view.
+
+(* one table entry as a group index *)
+Lemma key_pick rs k (e : entries Q) v p :
+  In (k, key_groups rs k) (gvars rs) -> key_groups rs k = grp e -> In (v, p) e ->
+  exists i, (i < length (groups (gv rs) (vid rs k)))%nat /\
+            (forall d, (@gp QProb (gv rs) d (vid rs k, i) == p)%Q) /\ In v (vals_of rs k i).
+Proof.
+  intros Hk Hg Hin. destruct (vid_groups rs k Hk) as (Egr & Enth).
+  destruct (grp_In e v p Hin) as (i & q & vs & Hn & Hq & Hv).
+  exists i. rewrite Egr, Hg. split; [|split].
+  - rewrite map_length. apply nth_error_Some. rewrite Hn. discriminate.
+  - intros d. unfold gp. simpl fst. simpl snd. rewrite Egr, Hg.
+    assert (En : nth_error (map fst (grp e)) i = Some q) by (now rewrite nth_error_map, Hn).
+    now rewrite (nth_error_nth _ _ _ En).
+  - unfold vals_of. rewrite Enth. simpl. rewrite Hg. now rewrite (nth_error_nth _ _ _ Hn).
+Qed.
+
+Lemma present_len mk t n e rs pre post : gvars rs = pre ++ len_vars mk t ++ post ->
+  by_len Q t n = Some e -> In (mk n, grp (tab t n)) (gvars rs).
+Proof. intros -> H. rewrite !in_app_iff. right. left. now apply len_vars_has with (e := e). Qed.
+
+Lemma tab_some t n e : by_len Q t n = Some e -> tab t n = e.
+Proof. unfold tab. now intros ->. Qed.
+
+Lemma picks_pt rs : forall ls picks,
+  Forall2 (fun l tp => pick_ok upper_c rs l (fst tp) (snd tp)) ls picks ->
+  exists idxs,
+    Forall2 lt idxs (map (fun v => length (groups (gv rs) v)) (flat_map (label_vars rs) ls)) /\
+    (forall d, (gprod (gv rs) d (combine (flat_map (label_vars rs) ls) idxs) == qprod (map snd picks))%Q) /\
+    Forall2 (fun t sg => In t (seg_choices upper_c sg)) (map fst picks) (segs rs ls idxs).
+Proof.
+  induction 1 as [|l [t q] ls picks Hp _ (idxs & Hlt & Hprod & Hseg)].
+  - exists []. split; [constructor|]. split; [intros d; reflexivity|constructor].
+  - simpl in Hp.
+    (* a plain variable *)
+    assert (Hplain : forall k e v p, In (k, key_groups rs k) (gvars rs) -> key_groups rs k = grp e -> In (v, p) e ->
+              label_vars rs l = [vid rs k] -> (forall i t0, segs rs (l :: ls) (i :: t0) = SegPlain (vals_of rs k i) :: segs rs ls t0) ->
+              t = v -> q = p ->
+              exists idxs0,
+                Forall2 lt idxs0 (map (fun v0 => length (groups (gv rs) v0)) (flat_map (label_vars rs) (l :: ls))) /\
+                (forall d, (gprod (gv rs) d (combine (flat_map (label_vars rs) (l :: ls)) idxs0) == qprod (map snd ((t, q) :: picks)))%Q) /\
+                Forall2 (fun t1 sg => In t1 (seg_choices upper_c sg)) (map fst ((t, q) :: picks)) (segs rs (l :: ls) idxs0)).
+    { intros k e v p Hk Hg Hin Hlv Hsg -> ->. destruct (key_pick rs k e v p Hk Hg Hin) as (i & Hi & Hgp & Hv).
+      exists (i :: idxs). rewrite Hsg. simpl flat_map. rewrite Hlv. simpl. split; [constructor; assumption|]. split.
+      - intros d. rewrite Hgp, Hprod. reflexivity.
+      - constructor; [exact Hv|exact Hseg]. }
+    inversion Hp as [n e v p He Hin|v p Hin|v p Hin|n e em w pw mask pmk He Hw Hem Hm|n e v p He Hin|n e v p He Hin]; subst.
+    + apply (Hplain (VK n) e t q); try reflexivity; try assumption.
+      * apply (present_len VK _ n e rs [] _ eq_refl He).
+      * simpl. now rewrite (tab_some _ _ _ He).
+    + apply (Hplain VY (r_years Q rs) t q); try reflexivity; try assumption.
+      unfold gvars. rewrite !in_app_iff. right. left. now left.
+    + apply (Hplain VX (r_context Q rs) t q); try reflexivity; try assumption.
+      unfold gvars. rewrite !in_app_iff. right. left. right. now left.
+    + (* alpha: word and mask *)
+      assert (HkA : In (VA n, key_groups rs (VA n)) (gvars rs)).
+      { unfold gvars. rewrite !in_app_iff. right. right. left. now apply len_vars_has with (e := e). }
+      assert (HkC : In (VC n, key_groups rs (VC n)) (gvars rs)).
+      { unfold gvars. rewrite !in_app_iff. right. right. right. left. now apply len_vars_has with (e := em). }
+      destruct (key_pick rs (VA n) e w pw HkA ltac:(simpl; now rewrite (tab_some _ _ _ He)) Hw) as (i & Hi & Hgi & Hvi).
+      destruct (key_pick rs (VC n) em mask pmk HkC ltac:(simpl; now rewrite (tab_some _ _ _ Hem)) Hm) as (j & Hj & Hgj & Hvj).
+      exists (i :: j :: idxs). simpl. split; [constructor; [assumption|constructor; assumption]|]. split.
+      * intros d. rewrite Hgi, Hgj, Hprod. ring.
+      * constructor; [|exact Hseg]. simpl. apply in_flat_map. exists w. split; [assumption|].
+        apply in_map_iff. exists mask. split; [apply mask_total_apply|assumption].
+    + apply (Hplain (VD n) e t q); try reflexivity; try assumption.
+      * unfold gvars. rewrite !in_app_iff. do 4 right. left. now apply len_vars_has with (e := e).
+      * simpl. now rewrite (tab_some _ _ _ He).
+    + apply (Hplain (VO n) e t q); try reflexivity; try assumption.
+      * unfold gvars. rewrite !in_app_iff. do 5 right. now apply len_vars_has with (e := e).
+      * simpl. now rewrite (tab_some _ _ _ He).
+Qed.
+
+(* C13's guesser side, literally about the guesser model of C02 / C04 *)
+Theorem generates_preterminal rs s p : generates upper_c rs s p ->
+  exists it : item QProb, In it (all_preterminals (gv rs)) /\ In s (denote upper_c (segs_of rs it)) /\
+                          (iprob it == p)%Q.
+Proof.
+  intros (ls & bp & picks & Hin & Hf & Hs & Hp).
+  destruct (In_nth_error _ _ Hin) as (k & Hk).
+  destruct (picks_pt rs ls picks Hf) as (idxs & Hlt & Hprod & Hseg).
+  set (vs := flat_map (label_vars rs) ls) in *.
+  assert (Hlen : length vs = length idxs).
+  { apply Forall2_len in Hlt. rewrite map_length in Hlt. lia. }
+  exists (@mk QProb (gv rs) k (combine vs idxs) bp). split; [|split].
+  - apply In_all_preterminals. exists (@Next.Build_bstruct QProb bp vs). simpl. repeat split.
+    + unfold guesser_view. simpl. rewrite nth_error_map, Hk. reflexivity.
+    + apply map_fst_combine. lia.
+    + apply Forall2_lt_combine. exact Hlt.
+  - unfold segs_of. simpl. rewrite Hk. simpl. rewrite (map_snd_combine vs idxs Hlen).
+    subst s. unfold denote. apply product_In. rewrite Forall2_map_r in Hseg |- *.
+    rewrite Forall2_map_l in Hseg. rewrite Forall2_map_l. exact Hseg.
+  - simpl. rewrite find_prob_Q_factor, Hprod, Hp. reflexivity.
+Qed.
+
+End Tie.
